@@ -31,7 +31,7 @@ META = dict(
 )
 
 HEADER = ("From Coq Require Import ZArith QArith List Bool.\n"
-          "From CV Require Import Base.Dy Flat.Curves Flat.Cert Flat.Arc Flat.XMono Corr.C03.\n"
+          "From CV Require Import Base.Dy Flat.Curves Flat.Cert Flat.Arc Flat.XMono Corr.C03.\nFrom CV Require Corr.C09.\n"
           "Import ListNotations.\nOpen Scope Q_scope.\n")
 
 # meaning of the judge's flag bits per case kind
@@ -44,6 +44,9 @@ FLAGS = {
     "CEll": {1: "prop:panic-or-not-a-finite-polyline", 2: "prop:end-points-not-preserved", 4: "prop:ellipse-vertex-farther-than-tol-from-the-ellipse",
              8: "prop:ellipse-arc-point-farther-than-K*tol-from-its-chord", 16: "prop:ellipse-vertices-not-advancing-in-sweep-direction", 128: "tie:centre-not-the-centre-of-an-ellipse-through-the-end-points",
              256: "info:vertex-or-chord-undecided"},
+    "CXArc": {1: "tie:generated-arc-inconsistent", 2: "prop:xmonotone-arc-piece-not-on-the-same-ellipse/direction", 4: "prop:xmonotone-arc-pieces-do-not-chain",
+              8: "prop:xmonotone-arc-cut-off-the-ellipse-or-not-advancing", 16: "prop:xmonotone-arc-piece-large-flag-contradicts-its-end-points",
+              32: "prop:arc-piece-not-x-monotone", 128: "prop:panic"},
     "CArcCube": {1: "prop:panic-or-non-finite", 2: "prop:cubics-not-joined", 8: "prop:|conic(B t)-1|>4e-3-not-excluded"},
     "CXMono": {1: "prop:panic-or-non-finite", 4: "prop:pieces-do-not-rejoin-to-the-curve", 8: "prop:piece-not-x-monotone", 32: "checker-rejected"},
     "CPub": {1: "prop:panic-or-receiver-modified", 2: "prop:subpath-count-changed", 4: "prop:subpath-start/end-moved",
